@@ -127,6 +127,21 @@ Proof.
     rewrite E'. exists (Nat.max k m'). split; [reflexivity|]. apply Nat.max_lub; assumption.
 Qed.
 
+(** the value the local conditions demand, from "is the side to move in check" and the labels
+    of the successor positions (Appendix A3) *)
+Definition expected_of (chk : bool) (ls : list label) : label :=
+  match ls with
+  | [] => if chk then Loss 0 else Draw
+  | _ :: _ =>
+      match min_loss ls with
+      | Some k => Win (S k)
+      | None => match max_win ls with
+                | Some m => Loss m
+                | None => Draw
+                end
+      end
+  end.
+
 Section Game.
   Variable pos : Type.
   Variable moves : pos -> list pos.
@@ -177,6 +192,9 @@ Section Game.
 
   (** ** The local certificate conditions (Appendix A3) *)
   Definition expected (L : pos -> label) (p : pos) : label :=
+    expected_of (in_check p) (map L (moves p)).
+
+  Lemma expected_unfold : forall L p, expected L p =
     match moves p with
     | [] => if in_check p then Loss 0 else Draw
     | _ :: _ =>
@@ -188,6 +206,7 @@ Section Game.
                   end
         end
     end.
+  Proof. intros L p. unfold expected, expected_of. destruct (moves p); reflexivity. Qed.
 
   Section Certificate.
     Variable S_ : pos -> Prop.                 (* the set of positions the table talks about *)
@@ -197,7 +216,7 @@ Section Game.
 
     Lemma never_win_0 : forall p, S_ p -> L p <> Win 0.
     Proof.
-      intros p Hp E. rewrite (cert p Hp) in E. unfold expected in E.
+      intros p Hp E. rewrite (cert p Hp) in E. rewrite expected_unfold in E.
       destruct (moves p); [destruct (in_check p); discriminate|].
       destruct (min_loss _); [discriminate|]. destruct (max_win _); discriminate.
     Qed.
@@ -209,7 +228,7 @@ Section Game.
     Proof.
       induction n as [n IH] using lt_wf_ind.
       assert (A : forall p, S_ p -> L p = Loss n -> loss_in n p).
-      { intros p Hp E. rewrite (cert p Hp) in E. unfold expected in E.
+      { intros p Hp E. rewrite (cert p Hp) in E. rewrite expected_unfold in E.
         destruct (moves p) as [|c0 r] eqn:Em.
         - destruct (in_check p) eqn:Ec; [|discriminate].
           apply loss_now; assumption.
@@ -225,7 +244,7 @@ Section Game.
           apply win_in_mono with (S k); [|exact Hk].
           apply (proj2 (IH k Hk)); assumption. }
       split; [exact A|].
-      intros p Hp E. rewrite (cert p Hp) in E. unfold expected in E.
+      intros p Hp E. rewrite (cert p Hp) in E. rewrite expected_unfold in E.
       destruct (moves p) as [|c0 r] eqn:Em.
       - destruct (in_check p); discriminate.
       - rewrite <- Em in *.
@@ -247,7 +266,7 @@ Section Game.
       - split.
         + intros p _ H. exfalso. exact (no_win_in_0 p H).
         + intros p Hp H. inversion H; subst.
-          * exists 0. split; [lia|]. rewrite (cert p Hp). unfold expected. rewrite H0, H1. reflexivity.
+          * exists 0. split; [lia|]. rewrite (cert p Hp). rewrite expected_unfold. rewrite H0, H1. reflexivity.
           * exfalso. destruct (moves p) as [|c r] eqn:E; [congruence|].
             apply (no_win_in_0 c). apply H1. left; reflexivity.
       - assert (W : forall p, S_ p -> win_in (S n) p -> exists k, k <= S n /\ L p = Win k).
@@ -257,19 +276,19 @@ Section Game.
           assert (I : In (Loss k) (map L (moves p))) by (rewrite <- Ek; apply in_map; assumption).
           destruct (min_loss_in _ _ I) as [k' [E' Hk']].
           exists (S k'). split; [lia|].
-          rewrite (cert p Hp). unfold expected.
+          rewrite (cert p Hp). rewrite expected_unfold.
           destruct (moves p) as [|c0 r] eqn:Em; [inversion H1|].
           rewrite <- Em in *. rewrite E'. reflexivity. }
         split; [exact W|].
         intros p Hp H. inversion H; subst.
-        + exists 0. split; [lia|]. rewrite (cert p Hp). unfold expected. rewrite H0, H1. reflexivity.
+        + exists 0. split; [lia|]. rewrite (cert p Hp). rewrite expected_unfold. rewrite H0, H1. reflexivity.
         + assert (B : forall l, In l (map L (moves p)) -> exists k, l = Win k /\ k <= S n).
           { intros l Hl. apply in_map_iff in Hl. destruct Hl as [c [Ec Hc]].
             assert (Sc : S_ c) by (apply closed with p; assumption).
             destruct (W c Sc (H1 c Hc)) as [k [Hk Ek]]. exists k. split; [congruence|exact Hk]. }
           destruct (max_win_all _ _ B) as [m' [Em' Hm']].
           exists m'. split; [exact Hm'|].
-          rewrite (cert p Hp). unfold expected.
+          rewrite (cert p Hp). rewrite expected_unfold.
           destruct (moves p) as [|c0 r] eqn:Em; [congruence|].
           rewrite <- Em in *.
           destruct (min_loss (map L (moves p))) as [k|] eqn:E1.
